@@ -136,18 +136,41 @@ func (el *ErrorListener) ReportContextSensitivity(recognizer antlr.Parser, dfa *
 func ParseZqlString(text string) string {
 	t := strings.TrimSuffix(strings.TrimPrefix(text, `"`), `"`)
 
-	//remove golang string back slash escaping
-	t = strings.Replace(t, `\\`, `\`, -1)
+	if !strings.Contains(t, `\`) {
+		return t
+	}
 
-	//remove ZitiQL string escaping
-	t = strings.Replace(t, `\"`, `"`, -1)
-	t = strings.Replace(t, `\f`, "\f", -1)
-	t = strings.Replace(t, `\n`, "\n", -1)
-	t = strings.Replace(t, `\r`, "\r", -1)
-	t = strings.Replace(t, `\t`, "\t", -1)
-	t = strings.Replace(t, `\\`, `\`, -1)
+	// remove ZitiQL string escaping in a single left to right pass, so that an escaped
+	// backslash is never re-read as the start of another escape sequence
+	buf := strings.Builder{}
+	buf.Grow(len(t))
+	for i := 0; i < len(t); i++ {
+		c := t[i]
+		if c != '\\' || i+1 == len(t) {
+			buf.WriteByte(c)
+			continue
+		}
+		i++
+		switch t[i] {
+		case '"':
+			buf.WriteByte('"')
+		case '\\':
+			buf.WriteByte('\\')
+		case 'f':
+			buf.WriteByte('\f')
+		case 'n':
+			buf.WriteByte('\n')
+		case 'r':
+			buf.WriteByte('\r')
+		case 't':
+			buf.WriteByte('\t')
+		default:
+			buf.WriteByte('\\')
+			buf.WriteByte(t[i])
+		}
+	}
 
-	return t
+	return buf.String()
 }
 
 var dateTimeStripper = regexp.MustCompile(`^\s*datetime\(\s*(.*?)\s*\)\s*$`)
